@@ -166,6 +166,9 @@ def sep_cases(tier, seed):
                         # moderately mixed versions: these are the states that only the block / spectrum / ball criteria certify
                         for noise in ((0.6,) if tier == "quick" else (0.3, 0.6)):
                             yield {"kind": "separable", "dA": dA, "dB": dB, "idx": list(idx), "w": list(w), "dimform": "list", "noise": noise}
+        if (dA, dB) == (3, 3):
+            for k in range(8 if tier == "quick" else 24):
+                yield {"kind": "rank4", "dA": 3, "dB": 3, "k": k, "dimform": ("list", "scalar", "omitted")[k % 3]}
         # argument forms on a few members
         yield {"kind": "separable", "dA": dA, "dB": dB, "idx": [0, 2], "w": [1, 3], "dimform": "scalar"}
         if dA == dB:
@@ -182,6 +185,21 @@ def sep_cases(tier, seed):
                 yield {"kind": "npt", "dA": dA, "dB": dB, "lam": lam, "s": [0.8, 0.6], "lu": "g0|g1", "dimform": "list", "scale": scale}
             yield {"kind": "separable", "dA": dA, "dB": dB, "idx": [0, 2], "w": [1, 3], "dimform": "list", "scale": scale}
             yield {"kind": "separable", "dA": dA, "dB": dB, "idx": [1], "w": [4], "dimform": "scalar", "scale": scale}
+
+
+def rank4_state(k):
+    """Mixture of four generic product states on 3 (x) 3 (fixed generator, independent of VERIF_SEED; real for even k, complex for odd k):
+    rank exactly 4, decided by the dedicated necessary-and-sufficient test of is_separable.  Added after seeded changes C15-9 / C15-11, which
+    broke that test and were caught by a single structured case, resp. not at all."""
+    rng = np.random.default_rng(1000 + k)
+    w = np.array([1.0, 2.0, 3.0, 4.0]) / 10
+    rho = np.zeros((9, 9), dtype=complex)
+    for t in range(4):
+        a = rng.normal(size=3) + 1j * rng.normal(size=3) * (k % 2)
+        b = rng.normal(size=3) + 1j * rng.normal(size=3) * (k % 2)
+        v = np.kron(a / np.linalg.norm(a), b / np.linalg.norm(b))
+        rho += w[t] * np.outer(v, v.conj())
+    return (rho + rho.conj().T) / 2
 
 
 def _dim_arg(case):
@@ -209,6 +227,17 @@ def traced_is_separable(rho, dim):
 
 def sep_check(case):
     dA, dB = case["dA"], case["dB"]
+    if case["kind"] == "rank4":
+        rho = rank4_state(case["k"])
+        if np.linalg.matrix_rank(rho, tol=1e-9) != 4:
+            return indet("constructed state does not have rank 4")
+        got, exc, line, final = traced_is_separable(rho, _dim_arg(case))
+        if exc is not None:
+            return no_verdict("is_separable raised on a rank-4 separable 3x3 state: " + exc_text(exc))
+        if not bool(got):
+            return viol(f"mixture of four product states on 3x3 (rank 4) declared entangled (return at line {line})",
+                        site="is_separable:separable_declared_entangled:rank4", observed=False, expected=True, line=line)
+        return ok(True, obs=True, line=line)
     if case["kind"] == "separable":
         rho = sep_state(dA, dB, case["idx"], case["w"], case.get("noise", 0.0)) * case.get("scale", 1.0)
         got, exc, line, final = traced_is_separable(rho, _dim_arg(case))
@@ -353,6 +382,13 @@ def symext_cases(tier, seed):
             for w in ((4,),) if k == 1 else ((1, 3), (2, 2)):
                 for form in ("list", "scalar", "omitted"):
                     yield {"dA": 2, "dB": 2, "idx": list(idx), "w": list(w), "level": 2, "ppt": False, "dimform": form}
+    # nearly pure separable states (weights 1 - 1e-5 .. 1 - 1e-7 on one product term): they look pure to np.isclose / np.allclose but are
+    # not (added after seeded change C15-12, whose pure-state shortcut refused them)
+    for dA, dB, ppts in ((2, 2, (False, True)), (2, 3, (True,)), (3, 2, (True,))):
+        for idx in ([0, 2], [1, 3], [4, 5]):
+            for big_w in (10 ** 5, 10 ** 6, 10 ** 7):
+                for ppt in ppts:
+                    yield {"dA": dA, "dB": dB, "idx": idx, "w": [big_w, 1], "level": 2, "ppt": ppt}
     big = [((2, 4), [0, 2], [1, 3]), ((3, 3), [0, 2], [1, 3]), ((3, 3), [1, 3, 5], [1, 2, 1])]
     if tier == "thorough":
         big += [((2, 4), [1, 3, 5], [1, 2, 1]), ((3, 3), [0, 1, 2, 4], [1, 1, 1, 1]), ((4, 2), [0, 5], [2, 2])]
